@@ -269,6 +269,44 @@ pub fn reader_on_removed_tree_node() -> ConcCase {
     }
 }
 
+/// C14 ("removing entries - by any operation - never makes it grow"): a resize started by
+/// `reserve` (`try_presize`) does not look at the entry count when it is done. Inserts that arrive
+/// while it is in its final phase neither join it nor start the next one (`add_count` breaks out
+/// when `transfer_index <= 0`), so the map can come to rest with `count >= size_ctl`. The next
+/// call of `add_count` with a resize hint then grows the table - and `compute_if_present` passes
+/// a hint when it REMOVES.
+///
+/// 16 bins / 11 entries. R `reserve(1)` resizes 16 -> 32 -> 64 and stops before publishing the
+/// 64-bin table; I inserts 41 fresh keys (52 entries >= 48 = 3/4 of 64); R finishes; C removes one
+/// entry with `compute_if_present(.., |..| None)`.
+pub fn overdue_then_removing_compute() -> ConcCase {
+    let mut origin = 1400u32;
+    let mut fresh = || {
+        origin += 1;
+        origin
+    };
+    let prefill: Vec<(u32, u64, u32)> = (1..=11u32).map(|k| (k, 0, fresh())).collect();
+    let ins: Vec<COp> = (100..=140u32).map(|k| COp::Ins(k, 1, fresh())).collect();
+    let script = vec![
+        ScriptStep { tid: 0, until: Until::Done { kind: Kind::Store, what: "Table", rel: Rel::Any, count: 1 } },
+        ScriptStep { tid: 0, until: Until::Pending { kind: Kind::Store, what: "Table", rel: Rel::Any } },
+        ScriptStep { tid: 1, until: Until::Finished },
+        ScriptStep { tid: 0, until: Until::Finished },
+        ScriptStep { tid: 2, until: Until::Finished },
+    ];
+    ConcCase {
+        id: 6,
+        seed: 0xC14,
+        hash_class: "scenario:overdue-then-removing-compute",
+        hashes: ident_hashes(200),
+        cap: 10,
+        prefill,
+        programs: vec![vec![COp::Reserve(1)], ins, vec![COp::CipRm(1)]],
+        policy: Policy::Script(script),
+        pin: false,
+    }
+}
+
 pub fn all() -> Vec<(&'static str, ConcCase)> {
-    vec![("stale-helper", stale_helper()), ("clear-in-transfer-window", clear_in_transfer_window()), ("null-first-iter", null_first_iter()), ("tree-stale-linear-reader", tree_stale_linear_reader()), ("iter-sees-unlinked-tree-insert", iter_sees_unlinked_tree_insert()), ("reader-on-removed-tree-node", reader_on_removed_tree_node())]
+    vec![("stale-helper", stale_helper()), ("clear-in-transfer-window", clear_in_transfer_window()), ("null-first-iter", null_first_iter()), ("tree-stale-linear-reader", tree_stale_linear_reader()), ("iter-sees-unlinked-tree-insert", iter_sees_unlinked_tree_insert()), ("reader-on-removed-tree-node", reader_on_removed_tree_node()), ("overdue-then-removing-compute", overdue_then_removing_compute())]
 }
